@@ -93,43 +93,56 @@ def record(ck, vecs):
         ck.run_vh(["replay", "C14", "-in", vp, "-out", rp, "-seed", ck.seed], timeout=1200)
         dp = os.path.join(ck.work, "drv_%02d.ndjson" % i)
         ck.run_vh(["drive", "C14", "-out", dp, "-tier", ck.tier, "-seed", ck.seed, "-shard", i, "-shards", NSHARDS], timeout=1200)
-        items = []
+        items = []                                  # (cost, file, offset, length): the lines themselves stay on disk
         for p in (rp, dp):
-            lines = open(p).read().splitlines()
-            if not lines or '"k":"End"' not in lines[-1]:
+            off, last = 0, b""
+            with open(p, "rb") as f:
+                for raw in f:
+                    ln = len(raw)
+                    body = raw.rstrip(b"\n")
+                    last = body[:200]
+                    if b'"k":"End"' not in body[:40]:
+                        k = re.search(rb'"k":"(\w+)"', body).group(1)
+                        if k == b"Flips":
+                            cost = 0.006 * body.count(b'"bit":')
+                        else:
+                            m = re.search(rb'"n":(\d+)', body)
+                            cost = 0.12 + 0.0015 * (int(m.group(1)) if m else 0)
+                        items.append((cost, p, off, len(body), i))
+                    off += ln
+            if b'"k":"End"' not in last:
                 raise Infra("driver output %s has no End record" % p)
-            for l in lines[:-1]:
-                k = re.search(r'"k":"(\w+)"', l).group(1)
-                if k == "Flips":
-                    cost = 0.03 * l.count('"bit":')
-                else:
-                    m = re.search(r'"n":(\d+)', l)
-                    cost = 0.12 + 0.0015 * (int(m.group(1)) if m else 0)
-                items.append((cost, l[:-1] + ',"oshard":%d}' % i))
-            os.remove(p)
         return items
     items = [it for part in vlib.parallel(one, range(NSHARDS), n=NSHARDS) for it in part]
-    items.sort(key=lambda it: -it[0])
-    # quick: 8 TLC processes (a JVM start costs ~6 s CPU, as much as judging 40 small events); thorough: 16
-    bins = [[0.0, []] for _ in range(NSHARDS if ck.thorough else 8)]
-    for cost, line in items:
+    items.sort(key=lambda it: (-it[0], it[1], it[2]))
+    # quick: 8 TLC processes (a JVM start costs ~6 s CPU, as much as judging 40 small events); thorough: 32 smaller traces, judged
+    # 10 at a time with 2 GB heaps (a 15 MB trace needs < 1 GB resident)
+    bins = [[0.0, []] for _ in range(32 if ck.thorough else 8)]
+    for it in items:
         b = min(bins, key=lambda x: x[0])
-        b[0] += cost
-        b[1].append(line)
+        b[0] += it[0]
+        b[1].append(it)
+    files = {}
     traces = []
-    for i, (_, lines) in enumerate(bins):
-        tp = os.path.join(ck.work, "trace_%02d.ndjson" % i)
-        with open(tp, "w") as out:
-            for l in lines:
-                out.write(l + "\n")
-            out.write(json.dumps({"k": "End", "events": len(lines)}) + "\n")
+    for bi, (_, its) in enumerate(bins):
+        tp = os.path.join(ck.work, "trace_%02d.ndjson" % bi)
+        with open(tp, "wb") as out:
+            for _, p, off, ln, shard in its:
+                f = files.get(p) or files.setdefault(p, open(p, "rb"))
+                f.seek(off)
+                body = f.read(ln)
+                out.write(body[:-1] + (b',"oshard":%d}\n' % shard))
+            out.write(json.dumps({"k": "End", "events": len(its)}).encode() + b"\n")
         traces.append(tp)
+    for p, f in files.items():
+        f.close()
+        os.remove(p)
     return traces
 
 
 def judge(ck, tp, name, account=True):
     st = (ck.states, ck.transitions, ck.traces_ok, ck.evaluations)
-    res, rejected = ck.validate_events("WalletMsg_Trace", "trace/WalletMsg_Trace.cfg", tp, timeout=3000, name=name, heap_gb=4)
+    res, rejected = ck.validate_events("WalletMsg_Trace", "trace/WalletMsg_Trace.cfg", tp, timeout=3000, name=name, heap_gb=2)
     if not account:
         ck.states, ck.transitions, ck.traces_ok, ck.evaluations = st
     notes = {}
@@ -154,7 +167,7 @@ def run(ck):
     ck.build_vh()
     vecs = gen_vectors(ck)
     traces = record(ck, vecs)
-    results = vlib.parallel(lambda a: judge(ck, a[1], "trace_%02d" % a[0]), list(enumerate(traces)), n=NSHARDS)
+    results = vlib.parallel(lambda a: judge(ck, a[1], "trace_%02d" % a[0]), list(enumerate(traces)), n=10 if ck.thorough else 8)
     kinds, distinct, nontrivial, accepted_by_ver, vec_seen = {}, set(), 0, {}, set()
     v5b_total = 0
     fixtures = 0
